@@ -470,8 +470,12 @@ func runArgOrigin(prog *Prog, sc StaticCheck) *StaticResult {
 				args := ci.Common().Args
 				okOrigin := false
 				if argIdx < len(args) {
-					if oc, ok := args[argIdx].(*ssa.Call); ok && oc.Call.StaticCallee() != nil && contractName(oc.Call.StaticCallee()) == sc.Args["origin"] {
-						okOrigin = true
+					// produced in the same basic block as the consuming call: one fresh value per execution of the call
+					if oc, ok := args[argIdx].(*ssa.Call); ok && oc.Call.StaticCallee() != nil && contractName(oc.Call.StaticCallee()) == sc.Args["origin"] && oc.Block() == in.Block() {
+						// and used by nothing else
+						if refs := oc.Referrers(); refs != nil && len(*refs) == 1 {
+							okOrigin = true
+						}
 					}
 				}
 				if okOrigin {
